@@ -577,3 +577,67 @@ def _isnull(x):
         return bool(pd.isna(x))
     except (TypeError, ValueError):
         return False
+
+
+# ------------------------------------------------------------------ contract stub for sample() on the real side
+class StubSampleFrame(pd.DataFrame):
+    """real DataFrame whose sample(n, random_state) returns the rows chosen by the solver model (the nondeterministic
+    stub of DESIGN.md section 3): any n distinct rows, the same rows for the same (n, random_state)."""
+    _metadata = ["_picks"]
+
+    @property
+    def _constructor(self):
+        return StubSampleFrame
+
+    @property
+    def _constructor_sliced(self):
+        return StubSampleSeries
+
+    def sample(self, n=None, random_state=None, **kw):
+        picks = (getattr(self, "_picks", None) or {}).get(str(random_state))
+        if picks is None or len(picks) != len(self):
+            return pd.DataFrame.sample(self, n=n, random_state=random_state, **kw)
+        if sum(picks) != n:
+            raise ValueError("Cannot take a larger sample than population when 'replace=False'")
+        return self.iloc[[i for i, p in enumerate(picks) if p]]
+
+
+class StubSampleSeries(pd.Series):
+    _metadata = ["_name", "_picks"]
+
+    @property
+    def _constructor(self):
+        return StubSampleSeries
+
+    @property
+    def _constructor_expanddim(self):
+        return StubSampleFrame
+
+    def sample(self, n=None, random_state=None, **kw):
+        picks = (getattr(self, "_picks", None) or {}).get(str(random_state))
+        if picks is None or len(picks) != len(self):
+            return pd.Series.sample(self, n=n, random_state=random_state, **kw)
+        if sum(picks) != n:
+            raise ValueError("Cannot take a larger sample than population when 'replace=False'")
+        return self.iloc[[i for i, p in enumerate(picks) if p]]
+
+
+def with_sample_stub(obj, vals: Vals, n_rows):
+    """wrap a real object so that sample() follows the model's picks (variables sample!<random_state>!<i>)"""
+    picks = {}
+    for name, val in vals.items():
+        if name.startswith("sample!"):
+            _, rs, i = name.split("!")
+            picks.setdefault(rs, {})[int(i)] = bool(val)
+    table = {rs: [d.get(i, False) for i in range(n_rows)] for rs, d in picks.items()}
+    out = StubSampleFrame(obj) if isinstance(obj, pd.DataFrame) else StubSampleSeries(obj)
+    out._picks = table
+    from pandera.api.checks import Check
+
+    for disp in Check.CHECK_FUNCTION_REGISTRY.values():  # built-in checks dispatch on the exact type
+        reg = disp._function_registry
+        if pd.Series in reg:
+            reg[StubSampleSeries] = reg[pd.Series]
+        if pd.DataFrame in reg:
+            reg[StubSampleFrame] = reg[pd.DataFrame]
+    return out
